@@ -53,7 +53,9 @@ CLASS_WEIGHT = {"int": 30, "float": 20, "complex": 5, "bool": 6, "str": 25,
 ORDERED = ("int", "float", "dt", "td")
 
 SPECIALS = list(".*+?()[]{}|^$\\")
-PLAIN = list("abcxyz019_ -")
+# no "0": "\\0" in a literal turns into NUL inside the unescaped regex, and numpy
+# str_ scalars silently drop trailing NULs (numpy's limitation, not judged here)
+PLAIN = list("abcxyz129_ -")
 EXOTIC = ["é", "ß", "Ω"]
 
 
